@@ -93,9 +93,10 @@ fn main() {
             if let Op::S { k, .. } = op {
                 applied.push(*k);
             }
-            let racy = *op == Op::R && ex.racy_state();
             let in_window = *op == Op::R && ex.flush_window();
             if let Some(mut line) = ex.exec(op) {
+                let racy = *op == Op::R && ex.last_read_racy;
+                if racy { line = ex.last_real_read.clone(); }
                 if racy {
                     // oracle still looks at the real answer; the compared line is only the token
                     let want_keys = applied.iter().map(|k| k.to_string()).collect::<Vec<_>>().join(",");
